@@ -194,7 +194,7 @@ def build_unit(ctx):
     fns[0].rules.append(('delete buffer; -> verif_delete(buffer): deletion of a backing buffer is recorded with the accounting effect of ~modeBuffer_t (proved in C05)', n))
     cmp_body = rewrite(cmp_, [('tie-break on object addresses -> on ghost object ids: pointer order is a total order on distinct '
                                'objects and CBMC does not provide one across objects (any total order is a valid implementation choice)',
-                               r'return \(a < b\);', 'return (a->verif_id < b->verif_id);', 1)])
+                               r'return \(a < b\);', 'return (a->verif_id < b->verif_id);', '*')])   # optional: a comparator without the tie-break is taken as it is
     cmp_text = re.sub(r'^', '  ', cmp_body, flags=re.M) + ';'
     skel = SKELETON.replace('@COMPARE@', cmp_text).replace('@ALIGN0@', align0).replace('@SERIAL_MEM_CTOR_BODY@', body2)
     text = PRELUDE + skel + '\nnamespace occa {\n' + real + '\n}\nusing namespace occa;\n'
